@@ -25,13 +25,15 @@ import zlib
 import common
 import floatref
 import pyfacts
+import srcobl
 import values
 import yaql
 from yaql.language import exceptions as yexc
 from yaql.language import factory
 
 ID = 'C15'
-LEAN_MODULES = ['Yaql.Props.C15', 'Yaql.Props.C15Gen', 'Yaql.Props.C15Float', 'Yaql.Props.FloatRound']
+LEAN_MODULES = ['Yaql.Props.C15', 'Yaql.Props.C15Gen', 'Yaql.Props.C15Float', 'Yaql.Props.FloatRound'] + \
+    srcobl.modules('C15')    # Props/SrcScalar: the payloads of Scalar.run equal the translation of the current source
 _P = 'Yaql.Props.C15.'
 REQUIRED_THEOREMS = [_P + n for n in (
     'select_bin', 'select_un', 'int_exact', 'int_ring_laws', 'floor_div_mod', 'mixed_is_float',
@@ -46,7 +48,7 @@ REQUIRED_THEOREMS = [_P + n for n in (
     'Yaql.Props.FloatRound.roundRat_tie_even', 'Yaql.Props.FloatRound.roundRat_overflow_iff_rat',
     'Yaql.Props.FloatRound.roundRat_mono', 'Yaql.Props.FloatRound.roundRat_neg', 'Yaql.Props.FloatRound.roundRat_congr',
     'Yaql.Props.FloatRound.roundRat_total', 'Yaql.Props.FloatRound.decode_encodeScaled',
-    'Yaql.Props.FloatRound.encodeScaled_decode']
+    'Yaql.Props.FloatRound.encodeScaled_decode'] + srcobl.theorems('C15')
 TRUSTED = ['the four IEEE-754 operations + - * / on two doubles are parameters of the theorems; the driver uses the '
            "machine's doubles through Lean `Float`, CPython through C `double` (same hardware); NaN sign/payload is "
            'not compared.  NOT trusted any more: float(int) rounding - it is FloatRound.roundRat i 1, proved exact up to 2**53, '
@@ -86,7 +88,53 @@ PATH_HIST = {}
 
 
 def generate():
-    return pyfacts.run(['ScalarOps'])['ScalarOps']
+    info = dict(pyfacts.run(['ScalarOps'])['ScalarOps'])
+    info.update(srcobl.generate('C15'))      # re-translate math.py / common.py / boolean.py (harness/py2lean.py)
+    return info
+
+
+# the operator each translated payload implements: (operator, 'bin'|'un', how its arguments become operands)
+def _ab(a, b):
+    return a, b
+
+
+SRC_OPS = dict(
+    binary_plus=('+', _ab), binary_minus=('-', _ab), multiplication=('*', _ab), division=('/', _ab), modulo=('mod', _ab),
+    gt=('>', _ab), gte=('>=', _ab), lt=('<', _ab), lte=('<=', _ab),
+    str_gt=('>', _ab), str_gte=('>=', _ab), str_lt=('<', _ab), str_lte=('<=', _ab), eq=('=', _ab), neq=('!=', _ab),
+    left_lt_null=('<', lambda a, b: (a, None)), left_lte_null=('<=', lambda a, b: (a, None)),
+    left_gt_null=('>', lambda a, b: (a, None)), left_gte_null=('>=', lambda a, b: (a, None)),
+    null_lt_right=('<', lambda a, b: (None, b)), null_lte_right=('<=', lambda a, b: (None, b)),
+    null_gt_right=('>', lambda a, b: (None, b)), null_gte_right=('>=', lambda a, b: (None, b)),
+    null_lt_null=('<', lambda a, b: (None, None)), null_lte_null=('<=', lambda a, b: (None, None)),
+    null_gt_null=('>', lambda a, b: (None, None)), null_gte_null=('>=', lambda a, b: (None, None)),
+    and_=('and', lambda a, b: (a(), b())), or_=('or', lambda a, b: (a(), b())),
+)
+SRC_UN = dict(unary_minus='-', unary_plus='+', not_='not')
+
+
+def src_oracle(t, pyargs, real):
+    """a candidate from the source-level differential (current source of a payload != model): the operator expression
+    evaluated by the real engine against the transcription of the documented meaning"""
+    if t.name in SRC_UN:
+        op, a = SRC_UN[t.name], pyargs[0]
+        r, o = real_eval(EXPR_UN[op], a), ref_un(op, a)
+        case = dict(op=op, a=values.enc(a), un=True)
+        text = '%s %r' % (op, a)
+    elif t.name in SRC_OPS:
+        op, f = SRC_OPS[t.name]
+        a, b = f(*pyargs)
+        if gray(op, a, b):
+            return None
+        r, o = real_eval(EXPR_BIN[op], a, b), ref_bin(op, a, b)
+        case = dict(op=op, a=values.enc(a), b=values.enc(b))
+        text = '%r %s %r' % (a, op, b)
+    else:
+        return None
+    if r != o:
+        return ('value:' + op, '%s evaluates to %r, the documented meaning is %r  [found through the source-level '
+                'differential of %s]' % (text, r, o, t.qual), case)
+    return None
 
 
 # ------------------------------------------------------------------ values
@@ -633,6 +681,9 @@ def run(env, res):
     hist = {'kind_pairs_x_ops': {}}
     if env['replay']:
         rp = json.load(open(env['replay']))
+        if 'src_target' in (rp.get('case') or {}):
+            srcobl.differential(env, res, ID, oracle=src_oracle)
+            return res
         if (rp.get('case') or {}).get('section') == 'floatround':
             floatref.replay(env, res, rp['case'])
             return res
@@ -650,6 +701,8 @@ def run(env, res):
         Round(vals, drv, res, hist).run()
         if res.failures:
             break
+    # source-level differential: every payload vs its Lean translation vs the model's payload table
+    srcobl.differential(env, res, ID, oracle=src_oracle)
     # the shared float section: FloatRound.roundRat / floatOfInt / divBits vs CPython, bit for bit
     hist['floatround'] = floatref.run_section(env, res, ID, 1200 if tier == 'quick' else 12000)
     hist['corpus'] = dict(boundary=len(BOUNDARY), random_per_round=plan,
